@@ -8,7 +8,8 @@ import "verifharness/internal/antelab"
 
 func main() {
 	antelab.Run("c15", []antelab.Part{
-		{Name: "modern", Share: 70},
-		{Name: "feex3", Share: 30, FeeMulti: 3},
+		{Name: "modern", Share: 50},
+		{Name: "feex3", Share: 25, FeeMulti: 3},
+		{Name: "pertype", Share: 25, FeeMulti: 2, SendMulti: 5}, // send ×5, stake_validator ×2, everything else ×2
 	})
 }
